@@ -162,6 +162,21 @@ func ruleC01Sinks(c *Checker) {
 			c.check(len(bad) == 0 && len(leaves) > 0, R, fnName, fmt.Sprintf("%s(arg%d)", shortCallee(s.Name), ai), pos,
 				"path originates only from UnpackInfo.Path",
 				"path of a mutating call does not come (only) from a validated UnpackInfo.Path; other origins: "+strings.Join(bad, ", "))
+			// the parent of an entry's path is only ever made (MkdirAll, a no-op where it exists): for an entry
+			// that names the root of the slug the parent is the destination's parent, outside it
+			if s.Sink.Class != "mkdir" {
+				viaDir := false
+				for w := range p.backSlice(args[ai], 3) {
+					if cl, ok := w.(*ssa.Call); ok {
+						if o := calleeObj(cl); isFunc(o, "path/filepath", "Dir") || isFunc(o, "path", "Dir") {
+							viaDir = true
+						}
+					}
+				}
+				c.check(!viaDir, R, fnName, fmt.Sprintf("%s(arg%d) not the parent", shortCallee(s.Name), ai), pos,
+					"the path is the entry's own, not filepath.Dir of it",
+					"a call that changes what is at its path is given filepath.Dir of an entry's path: for an entry that names the slug's root (./, ., a/..) that is the parent of the destination, whose mode, times or contents are then changed")
+			}
 		}
 	}
 	for _, role := range []string{"mkdir", "create", "symlink", "chmod", "chtimes"} {
